@@ -118,6 +118,30 @@ func c09Directed() []c09Entry {
 			p.Labels["app"] = "other"
 			w.Srv.Seed(simapi.Pods, p)
 		}),
+		mk("revision name collision with an unlisted object holding the same data (create answered AlreadyExists, then read back)", world.SetOpts{Replicas: 1, Policy: asv1.ParallelPodManagement, HistLimit: 5}, func(r *world.Runner) {
+			convergeQuietly(r)
+			w := r.W
+			// the set's only revision drops out of its history (no selector labels, no owner) but keeps its name
+			for _, rev := range world.RevisionsOf(w.Srv.Snap(), world.NS) {
+				w.Srv.Mutate(simapi.Revisions, world.NS, rev.Name, func(o runtime.Object) {
+					c := o.(*appsv1.ControllerRevision)
+					c.OwnerReferences = nil
+					c.Labels = map[string]string{"unrelated": "x"}
+				})
+			}
+		}),
+		mk("revision name collision with an unlisted object holding other data (collision count, second name)", world.SetOpts{Replicas: 1, Policy: asv1.ParallelPodManagement, HistLimit: 5}, func(r *world.Runner) {
+			convergeQuietly(r)
+			w := r.W
+			for _, rev := range world.RevisionsOf(w.Srv.Snap(), world.NS) {
+				w.Srv.Mutate(simapi.Revisions, world.NS, rev.Name, func(o runtime.Object) {
+					c := o.(*appsv1.ControllerRevision)
+					c.OwnerReferences = nil
+					c.Labels = map[string]string{"unrelated": "x"}
+					c.Data = runtime.RawExtension{Raw: []byte(`{"spec":{"template":{"$patch":"replace","metadata":{"labels":{"x":"y"}}}}}`)}
+				})
+			}
+		}),
 		mk("migrated revisions: label sync and adoption of marker orphans", world.SetOpts{Replicas: 2, Policy: asv1.OrderedReadyPodManagement, HistLimit: 5}, func(r *world.Runner) {
 			convergeQuietly(r)
 			w := r.W
